@@ -97,7 +97,7 @@ OutsViol(e, outs, pre, fin, ms, rq, synws, k) ==
              THEN << <<l, "S2", e, "ip-fragment", o.iplen, o.foff>> >> ELSE <<>>)
             \o OutsViol(e, Tail(outs), pre, fin, ms, rq, synws, k)
        ELSE LET sw == IF o.syn /\ ~o.rst THEN [synws EXCEPT ![e] = o.ws] ELSE synws
-            IN OutViol(e, o, pre, fin, ms, rq, sw, k) \o OutsViol(e, Tail(outs), pre, fin, IF o.norel THEN ms ELSE Max(ms, o.seq + SegLen(o)), rq, sw, k)
+            IN OutViol(e, o, pre, fin, ms, rq, sw, k) \o OutsViol(e, Tail(outs), pre, fin, IF o.norel \/ o.rst THEN ms ELSE Max(ms, o.seq + SegLen(o)), rq, sw, k)
 \* folds over the emitted frames: new advertised edge, highest ack emitted, highest sequence sent, own window-scale option
 RECURSIVE OutsFold(_, _, _, _)
 OutsFold(e, outs, a, sw) ==
@@ -109,7 +109,8 @@ OutsFold(e, outs, a, sw) ==
                 sh == IF o.syn \/ ~bothWs THEN 0 ELSE Min(ws2, 14)
                 edge == IF o.ha /\ ~o.rst THEN Max(a.edge, o.ack + o.win * Pow2(sh)) ELSE a.edge
                 la == IF o.ha /\ ~o.rst THEN Max(a.la, o.ack) ELSE a.la
-            IN OutsFold(e, Tail(outs), [edge |-> edge, la |-> la, ms |-> Max(a.ms, o.seq + SegLen(o)), ws |-> ws2, rst |-> a.rst \/ o.rst], sw)
+            \* (a reset takes its sequence number from the segment it answers: it says nothing about what has been sent)
+            IN OutsFold(e, Tail(outs), [edge |-> edge, la |-> la, ms |-> IF o.rst THEN a.ms ELSE Max(a.ms, o.seq + SegLen(o)), ws |-> ws2, rst |-> a.rst \/ o.rst], sw)
 
 PostViol(e, p, now) ==
   IF (p.st \in NeedTimer \/ (p.sq > 0 /\ p.st \in DataStates)) /\ p.pa = -1 THEN << <<l, "L1", e, p.st, IF p.sq > 0 THEN "data" ELSE "ctl">> >> ELSE <<>>
